@@ -1176,8 +1176,12 @@ class RZILTransformer(Transformer):
         if not isinstance(a.get_val(), int) or not isinstance(b.get_val(), int):
             return None
 
-        val_a = a.get_val()
-        val_b = b.get_val()
+        # The operands are converted to their common type, the result wraps in it.
+        a_type, b_type = c11_cast(
+            promoted_type(a.value_type), promoted_type(b.value_type)
+        )
+        val_a = wrap_to_type(wrap_to_type(a.get_val(), a.value_type), a_type)
+        val_b = wrap_to_type(wrap_to_type(b.get_val(), b.value_type), b_type)
         self.il_ops_holder.rm_op_by_name(a.get_name())
         self.il_ops_holder.rm_op_by_name(b.get_name())
         match operation:
@@ -1191,9 +1195,8 @@ class RZILTransformer(Transformer):
                 result = val_a / val_b
             case _:
                 raise NotImplementedError(f"Can not simplify '{operation}' expression.")
-        a_type, b_type = c11_cast(
-            promoted_type(a.value_type), promoted_type(b.value_type)
-        )
+        if isinstance(result, int):
+            result = wrap_to_type(result, a_type)
 
         name = f'const_{"neg" if result < 0 else "pos"}_{abs(result)}'
         return Number(name, result, a_type)
@@ -1245,7 +1248,11 @@ class RZILTransformer(Transformer):
         if not isinstance(cond, LetVar):
             return None
         self.il_ops_holder.rm_op_by_name(cond.get_name())
-        if cond.get_val():
+        cond_val = cond.get_val()
+        if isinstance(cond_val, int) and not isinstance(cond_val, bool):
+            # The condition is tested with the value it has in its C type.
+            cond_val = wrap_to_type(cond_val, cond.value_type)
+        if cond_val:
             self.il_ops_holder.rm_op_by_name(items[2].get_name())
             return items[1]
         self.il_ops_holder.rm_op_by_name(items[1].get_name())
